@@ -172,6 +172,12 @@ class Vector():
 		self._display_as_row = as_row
 		self._wild = True
 
+		# Vector(<sequence of vectors>) returns an already initialised Table from
+		# __new__ and Python then runs __init__ a second time: drop the alias
+		# registration of the storage that is about to be replaced.
+		if '_underlying' in self.__dict__:
+			_ALIAS_TRACKER.unregister(self, id(self.__dict__['_underlying']))
+
 		# We check self.__dict__ directly to avoid triggering Table.__getattr__
 		# which would crash because the table isn't initialized yet.
 		if '_precomputed_data' in self.__dict__:
